@@ -54,7 +54,11 @@ class CppViewHelper:
 				```
 			"""
 			param_default = BlockParser.break_separator(parameter, '=')
-			param, default_value = param_default if len(param_default) == 2 else (param_default[0], '')
+			param, default_value = param_default[0], ''
+			if len(param_default) >= 2:
+				# デフォルト値は最初のトップレベルの'='以降の全て (例: `bool b = x == y`)
+				assign_at = parameter.index('=', parameter.index(param) + len(param))
+				default_value = parameter[assign_at + 1:].strip(' ')
 			type_symbol = BlockParser.break_separator(param, ' ')
 			symbol = type_symbol.pop()
 			var_type = ' '.join(type_symbol)
